@@ -136,6 +136,8 @@ type vTransport struct {
 	order    []string // "write" / "shutdown" sequence
 	attempts []Address
 	onWrite  func(b []byte, a Address)
+	owner    *Memberlist
+	flagAtShutdown bool // the shutdown flag was already raised when the transport was asked to shut down
 }
 
 func (t *vTransport) FinalAdvertiseAddr(ip string, port int) (net.IP, int, error) {
@@ -172,6 +174,9 @@ func (t *vTransport) DialAddressTimeout(a Address, timeout time.Duration) (net.C
 }
 func (t *vTransport) StreamCh() <-chan net.Conn { return t.streamCh }
 func (t *vTransport) Shutdown() error {
+	if t.owner != nil && t.owner.hasShutdown() {
+		t.flagAtShutdown = true
+	}
 	t.shut++
 	t.order = append(t.order, "shutdown")
 	return nil
@@ -214,6 +219,7 @@ func vNewML(conf *Config) *vFix {
 	m.broadcasts.NumNodes = func() int { return m.estNumNodes() }
 	m.setAdvertise(net.IP{10, 0, 0, 1}, 7946)
 	f.m = m
+	f.tr.owner = m
 	return f
 }
 
